@@ -45,7 +45,7 @@ def compatible(kind, k, n, planted):
 def points(tier):
     K = 3
     N = 4 if tier == 'quick' else 5
-    seeds = (0, 1, 2) if tier == 'quick' else (0, 1, 2, 3, 7, 11)
+    seeds = (0, 1, 'zeros', 'big', 'alt', 'count', 'mix') if tier == 'quick' else (0, 1, 2, 3, 7, 11, 'zeros', 'big', 'alt', 'count', 'mix')
     for kind in ('cnf', 'xor'):
         for k in range(0, K + 1):
             for n in range(0, N + 1):
@@ -65,10 +65,24 @@ def points(tier):
                             yield {'kind': kind, 'k': k, 'n': n, 'm': m, 'planted': pl, 'seed': seed}
 
 
+STREAMS = {'zeros': lambda i: 0, 'big': lambda i: 10 ** 6 - 1, 'alt': lambda i: (i // 3) % 2, 'count': lambda i: i // 2,
+           'mix': lambda i: (i * 7 + 3) % 5}
+
+
 def build(p):
-    from cnfgen.families.randomformulas import RandomKCNF
-    from cnfgen.families.randomkxor import RandomKXOR
-    fn = RandomKCNF if p['kind'] == 'cnf' else RandomKXOR
+    from cnfgen.families import randomformulas, randomkxor
+    mod = randomformulas if p['kind'] == 'cnf' else randomkxor
+    fn = mod.RandomKCNF if p['kind'] == 'cnf' else mod.RandomKXOR
+    if isinstance(p['seed'], str):
+        # deterministic adversarial stream instead of the Mersenne Twister: repeated / slowly varying draws make the
+        # rejection phase give up with a partial result, so the dense fallback runs on every size
+        from ..xh.xutil import Tape, FakeRandom
+        old = mod.random
+        mod.random = FakeRandom(Tape(concrete=STREAMS[p['seed']]))
+        try:
+            return fn(p['k'], p['n'], p['m'], planted_assignments=[list(a) for a in p['planted']])
+        finally:
+            mod.random = old
     return fn(p['k'], p['n'], p['m'], seed=p['seed'], planted_assignments=[list(a) for a in p['planted']])
 
 
@@ -190,7 +204,7 @@ def run(tier):
         'formula is checked for shape, every XOR block is decided by z3 to be equivalent to a parity on exactly k variables, and the '
         'error boundary is probed at m = max-1, max, max+1 (m = max forces the dense path).')
     run.bounds = ['X: (k,n) in (1,1),(1,2),(2,2),(1,3),(2,3) and all degenerate k=0 / k>n with n<=2; m<=2(3); <=1 planted assignment; 5-10 non-trivial draws per run',
-                  'S: k<=3, n<=%d, m in {0,1,max/2,max-1,max,max+1,max+5} (all m when max<=6), <=2 planted assignments, seeds %s' % ((4, '0,1,2') if tier == 'quick' else (5, '0,1,2,3,7,11'))]
+                  'S: k<=3, n<=%d, m in {0,1,max/2,max-1,max,max+1,max+5} (all m when max<=6), <=2 planted assignments, seeds %s plus five deterministic adversarial draw streams (zeros, big, alt, count, mix) that force the dense fallback' % ((4, '0,1') if tier == 'quick' else (5, '0,1,2,3,7,11'))]
     run.outside = ['runs needing more draws than the tape bound (long streaks of rejected samples) are cut', 'all seeds of the real Mersenne Twister', 'k>3']
     run.assumptions = ['RNG stub contract (sample = any k-subset in any order, choice = any element, randint = any value)']
     T = 300 if tier == 'quick' else 1200
